@@ -167,7 +167,6 @@ ObuExt(b) == (b \div 4) % 2
 ObuHasSize(b) == (b \div 2) % 2
 
 (* leb128 at byte position p: [n bytes used (0 = invalid), value (capped)]   *)
-BIG == 1000000000
 Leb(d, p) ==
     LET K == { k \in 1..8 : p + k - 1 <= Len(d) /\ d[p + k - 1] < 128
                               /\ \A j \in 1..(k-1) : d[p + j - 1] >= 128 }
